@@ -307,6 +307,9 @@ def selftest(ctx):
 
 
 def run(ctx):
+    from spverif.ref import enums as _enums
+    if ctx.shard[0] == 0:
+        _enums.check(ctx, "code_tables", ['spacepackets.cfdp.tlv.defs.ProxyMessageType', 'spacepackets.cfdp.tlv.defs.DirectoryOperationMessageType', 'spacepackets.cfdp.defs.ConditionCode', 'spacepackets.cfdp.defs.DeliveryCode', 'spacepackets.cfdp.defs.FileStatus', 'spacepackets.cfdp.defs.TransmissionMode'])
     from spverif.san import scribble
     scribble.install()
     r = ctx.rng
